@@ -19,14 +19,14 @@ def run_cpp_model(text):
             fn = os.path.join(d, 'c%d.txt' % i)
             open(fn, 'w').write(''.join(recs[i::ns]))
             files.append(fn)
-        procs = [subprocess.Popen(['bash', '-c', 'ulimit -s unlimited; exec "$0" "$1"', drv, fn],
-                                  stdout=subprocess.PIPE, stderr=subprocess.PIPE) for fn in files]
+        # results go to files: a shard must not wait on a full pipe while an earlier one is being read
+        procs = [(subprocess.Popen(['bash', '-c', 'ulimit -s unlimited; exec "$0" "$1" > "$1.out" 2> "$1.err"', drv, fn]), fn) for fn in files]
         res = {}
-        for p in procs:
-            o, e = p.communicate(timeout=7200)
+        for p, fn in procs:
+            p.wait(timeout=7200)
             if p.returncode != 0:
-                raise HarnessError('cpp.native failed: ' + e.decode()[-1000:])
-            for l in o.decode().splitlines():
+                raise HarnessError('cpp.native failed: ' + open(fn + '.err', errors='replace').read()[-1000:])
+            for l in open(fn + '.out', errors='replace').read().splitlines():
                 if not l.startswith('@cppr '):
                     continue
                 f = l.split(' ')
